@@ -158,7 +158,7 @@ func HarnessC01Filters() {
 // (4) small programs whose identifier slots are filled from {x, y}: names bound by tags may
 // collide with the names they are computed from (e.g. {% cycle x as x %}{% cycle x %}).
 func HarnessC01Names() {
-	nm := func() string { return []string{"x", "y"}[verifChoice(2)] }
+	nm := func() string { return []string{"x", "y", "forloop", "block"}[verifChoice(4)] } // incl. the names tags bind themselves
 	A, B, N := nm(), nm(), nm()
 	forms := []string{
 		"{% cycle " + A + " " + B + " as " + N + " %}{% cycle " + N + " %}{{ " + N + " }}{% cycle " + N + " %}",
@@ -170,6 +170,9 @@ func HarnessC01Names() {
 		"{% macro " + N + "(" + A + ") %}{{ " + A + " }}{% endmacro %}{{ " + N + "(" + B + ") }}{{ " + N + "(" + N + ") }}",
 		"{% firstof " + A + " " + N + " %}{% ifchanged " + N + " %}{{ " + A + " }}{% endifchanged %}",
 		"{% cycle " + A + " as " + N + " %}{% with " + A + "=" + N + " %}{% cycle " + N + " %}{{ " + A + " }}{% endwith %}",
+		"{% set " + N + " = " + A + " %}{% for i in l %}{{ " + N + " }}{{ forloop.Counter }}{% for j in l %}{{ forloop.Parentloop.Counter }}{% endfor %}{% endfor %}",
+		"{% with " + N + "=" + A + " %}{% for i in l %}{{ " + N + " }}{% endfor %}{% block b %}{{ block.Super }}{{ " + N + " }}{% endblock %}{% endwith %}",
+		"{% macro m(" + N + ") %}{% for i in l %}{{ " + N + " }}{% endfor %}{% endmacro %}{{ m(" + A + ") }}{{ m() }}",
 		// named cycle values that refer to each other: a ring of two and of three values
 		"{% cycle 1 " + B + " as " + A + " silent %}{% cycle 2 " + A + " as " + B + " silent %}{% cycle " + A + " %}{% cycle " + B + " %}{{ " + N + " }}",
 		"{% cycle 1 y as x silent %}{% cycle 2 z as y silent %}{% cycle 3 x as z silent %}{% cycle x %}{% cycle y %}{% cycle z %}{{ " + N + " }}{% cycle " + N + " %}",
